@@ -41,6 +41,11 @@ PUMPS = [
 BLOCK_UNITS = ["a \"b\" c.\n\n", "# **h**\n\ntext...\n\n", "- it's\n\n", "| a | \"b\" |\n|---|---|\n\npara\n\n", "> q \"x\"\n\n",
                "para one.\n\n```\ncode\n```\n\n", "[a]: http://x.y\n\nsee [a]...\n\n"]
 
+# many inline constructs in ONE paragraph (2048 vs 8192 copies): per-construct scanning must not rescan the rest of the paragraph
+INLINE_UNITS = ["~5 km, ", "a*b ", "x_y ", "`a ", "\\( ", "&x ", "~~a ", "**b ", "www.a ", "a... ", "\"q ", "it's ", "<b>x</b> ", "{{ v }} ",
+                "{% a ", "<!-- ", "{# c ", "{{ v "]
+UNCLOSED_TAG_OPENERS = {"{% a ", "<!-- ", "{# c ", "{{ v "}
+
 FN_LABELS = ["1", "a.b", "a b", "n1", "note-1", "a*b", "x(y)", "é", "+", "a.b.c.d", "a?", "a|b", "^", "a$"]
 FN_SEPS = ["\t", " \t", "  \t", "   \t", "\t\t", " ", "   ", "\t ", ""]
 FN_BODIES = ["x", "x\n\ty", "- a", "\tcode", "x\n\n    more", ""]
@@ -239,6 +244,35 @@ def block_growth(ctx: Ctx) -> None:
                 ctx.fail(f"GROWTH: {n1 // n0}× the blocks cost {ratio:.1f}× the time (running time does not grow gently with the number of blocks)",
                          case, {"cpu_seconds": ts})
     ctx.extra["block_growth"] = res
+    m0, m1 = (2048, 8192) if ctx.tier == "quick" else (4096, 32768)
+    res2 = []
+    o = dict(width=88, semantic=True, cleanups=True, smartquotes=True, ellipses=True)
+    for unit in INLINE_UNITS:
+        ts = []
+        # the four unclosed openers are known to be quadratic: half the sizes keep the quick tier short
+        sizes = (m0 // 2, m1 // 2) if unit in UNCLOSED_TAG_OPENERS else (m0, m1)
+        for n in sizes:
+            best = None
+            for _ in range(2):
+                out, secs, err = call(lambda: reformat_text(unit * n, **o), 120)
+                if err is not None:
+                    best = None
+                    break
+                best = secs if best is None else min(best, secs)
+            ts.append(best)
+        ctx.count(["inline-growth", unit], nontrivial=True)
+        ctx.bump("inline-growth")
+        case = {"unit": unit, "copies in one paragraph": list(sizes), "opts": {k: str(v) for k, v in o.items()}}
+        known = "C12-unclosed-tag-openers-quadratic" if unit in UNCLOSED_TAG_OPENERS else None
+        if None in ts:
+            ctx.fail("GROWTH: a paragraph of many small inline constructs raised or did not finish within 120 s", case, None, known=known)
+            continue
+        ratio = ts[1] / max(ts[0], 1e-3)
+        res2.append({"unit": unit, "seconds": [round(t, 3) for t in ts], "ratio": round(ratio, 1)})
+        if ts[1] > 0.5 and ratio > 2.25 * (m1 / m0):
+            ctx.fail(f"GROWTH: {m1 // m0}× the inline constructs cost {ratio:.1f}× the time (running time does not grow gently with the length of a paragraph)",
+                     case, {"cpu_seconds": ts}, known=known)
+    ctx.extra["inline_growth"] = res2
 
 
 def pumps(ctx: Ctx, sizes, top_limit: float, max_exp: float) -> None:
